@@ -266,3 +266,25 @@ func init() {
 	mutant("settings-framesize-accepts-all", "settings-validate", "settings.go", "if value < 1<<14 || value > 1<<24-1 {", "if value < 1<<14 && value > 1<<24-1 {")
 	mutant("settings-table-size-inverted", "settings-encode-defaults", "settings.go", "	if st.tableSize != 0 {", "	if st.tableSize == 0 {")
 }
+
+// Variants for the building-block rules (rules_hygiene.go), reset values and copy completeness.
+func init() {
+	mutant("flag-has-inverted", "flag-ops", "frame.go", "	return flags&f == f", "	return flags&f != f")
+	mutant("flag-has-any-bit", "flag-ops", "frame.go", "	return flags&f == f", "	return flags&f != 0")
+	mutant("flag-add-is-and", "flag-ops", "frame.go", "	return flags | f", "	return flags & f")
+	mutant("headers-endstream-setter-noop", "accessor-pairing", "headers.go", "	h.endStream = value\n", "")
+	mutant("headers-endheaders-crosswired", "accessor-pairing", "headers.go", "	h.endHeaders = value\n", "	h.endStream = value\n")
+	mutant("frameheader-setstream-noop", "accessor-pairing", "frameHeader.go", "	f.stream = stream\n", "")
+	mutant("settings-tablesize-setter-noop", "accessor-pairing", "settings.go", "	st.tableSize = size\n", "")
+	mutant("windowupdate-setter-noop", "accessor-pairing", "windowUpdate.go", "	wu.increment = increment\n", "")
+	mutant("pseudo-test-inverted", "pseudo-header-test", "headerField.go", "	return len(hf.key) > 0 && hf.key[0] == ':'", "	return len(hf.key) > 0 && hf.key[0] != ':'")
+	mutant("pseudo-test-second-octet", "pseudo-header-test", "headerField.go", "	return len(hf.key) > 0 && hf.key[0] == ':'", "	return len(hf.key) > 1 && hf.key[1] == ':'")
+	mutant("search-returns-other", "stream-table-ops", "streams.go", "		if strm.ID() == id {\n			return strm\n		}\n	}\n	return nil", "		if strm.ID() != id {\n			return strm\n		}\n	}\n	return nil")
+	mutant("del-drops-neighbour", "stream-table-ops", "streams.go", "append((*strms)[:i], (*strms)[i+1:]...)", "append((*strms)[:i], (*strms)[i+2:]...)")
+	mutant("del-empties-on-absent-id", "stream-table-ops", "streams.go", "	if len(*strms) == 1 && (*strms)[0].ID() == id {", "	if len(*strms) == 1 || (*strms)[0].ID() == id {")
+	mutant("settings-reset-window-default", "reset-completeness", "settings.go", "	st.windowSize = defaultWindowSize\n", "	st.windowSize = defaultDataFrameSize\n")
+	mutant("headers-reset-endstream-set", "reset-completeness", "headers.go", "	h.endStream = false\n", "	h.endStream = true\n")
+	mutant("frameheader-reset-stream-one", "reset-completeness", "frameHeader.go", "	f.stream = 0\n", "	f.stream = 1\n")
+	mutant("headerfield-copy-misses-sensible", "settings-copy-complete", "headerField.go", "	other.sensible = hf.sensible\n", "")
+	mutant("headerfield-copy-extends-value", "settings-copy-complete", "headerField.go", "	other.value = append(other.value[:0], hf.value...)", "	other.value = append(other.value, hf.value...)")
+}
